@@ -162,6 +162,9 @@ func classify(kind string, err error) string {
 	switch {
 	case s == "backend-error" || has("can't get latest height"):
 		return "err:next"
+	case (strings.HasPrefix(s, "block of height") || strings.HasPrefix(s, "block with hash") || strings.HasPrefix(s, "consensus params of height") ||
+		has("is outside the requested range")) && has("expected") || has("is outside the requested range"):
+		return "err:request"
 	case has("failed to update light client"):
 		return "err:lc"
 	}
@@ -1056,6 +1059,10 @@ func scriptedCases(emit func(core.Case)) {
 			{"abci", "path=" + path + " data=" + hx([]byte("genesis")) + " qh=2", "Value+ProofOps:keyless-prefix", 2},
 			{"abci", "path=" + path + " data=" + hx([]byte("genesis")) + " qh=2", "Value+ProofOps", 2},
 			{"abci", "path=" + path + " data=" + hx([]byte("genesis")) + " qh=6", "none", 0}},
+		"request-binding": {{"block", "req=3", "Block:other-height", 4}, {"blockbyhash", "req=" + hx(c.lbs[2].Hash()), "Block:other-height", 4},
+			{"cparams", "req=3", "Answer:other-height", 1}, {"cparams", "req=3", "none", 0}, {"bcinfo", "min=3 max=3", "BlockMetas:other-range", 4},
+			{"bcinfo", "min=2 max=5", "BlockMetas:other-range", 2}, {"abci", "path=" + path + " data=" + hx([]byte("genesis")) + " qh=2", "Answer:other-height", 3},
+			{"abci", "path=" + path + " data=" + hx([]byte("genesis")) + " qh=2", "Key+Value+ProofOps:other-key", 3}},
 		"block-partsetheader": {{"block", "req=3", "none", 0}, {"block", "req=3", "BlockID.PartSetHeader.Total", 1},
 			{"blockbyhash", "req=" + hx(c.lbs[4].Hash()), "BlockID.PartSetHeader.Hash", 1}, {"block", "req=3", "Block:other-height", 4},
 			{"block", "req=nil", "none", 0}, {"block", "req=3", "Block.Header.ValidatorsHash:empty+BlockID.Hash:empty", 0}},
@@ -1113,6 +1120,23 @@ func (g *gen) expect(kind string, m map[string]string, honest, served interface{
 	}
 	exp := "any"
 	honestCall := m["mut"] == "none"
+	if *class == "request" && m["req"] == "nil" && (kind == "block" || kind == "cparams") {
+		*class = "free" // "latest" is whatever the node says is latest: nothing to bind the answer to
+	}
+	if *class == "request" && kind == "bcinfo" {
+		if rb, _ := served.(*ctypes.ResultBlockchainInfo); rb != nil {
+			in := true
+			mn, mx := int64(atoi(m["min"])), int64(atoi(m["max"]))
+			for _, bm := range rb.BlockMetas {
+				if bm != nil && ((mn > 0 && bm.Header.Height < mn) || (mx > 0 && bm.Header.Height > mx)) {
+					in = false
+				}
+			}
+			if in {
+				*class = "free" // a subset of the requested range: omissions cannot be detected (pruning, the 20-block limit)
+			}
+		}
+	}
 	switch kind {
 	case "block", "blockbyhash":
 		if rb, _ := served.(*ctypes.ResultBlock); rb != nil && rb.Block != nil {
